@@ -445,6 +445,62 @@ class Gen:
         self.act("stabilise")
         self.count("motif_leak" + ("_nested" if nested else ""))
 
+    def motif_scoped_var(self):
+        """a variable made with `var_current_scope` inside a bind closure, handed out through a shared cell (its
+        ordinal is known: closures run in a known order here); the bind re-runs (the variable's watch node becomes
+        invalid) and the variable is written afterwards, observed directly or not (D14)"""
+        rng = self.rng
+        self.mk_var(); outer = len(self.nodes) - 1
+        vo = self.nodes[outer]["var"]
+        f = self.new_fn(1, m=7)
+        slot = self.nslot; self.nslot += 1
+        bi = self.nbody; self.nbody += 1
+        c1, c2 = rng.randint(0, 4), rng.randint(0, 4)
+        self.defs.append(f"body b{bi} 2 scopedvar {c1} ; pub s{slot} %0 ; map f{f} %0 ; ret %1 | "
+                         f"scopedvar {c2} ; pub s{slot} %0 ; map f{f} %0 ; ret %1")
+        # not offered for reuse (`bodies_info`): every further run would shift the ordinals of later variables
+        self.act(f"bind b{bi} n{outer}")
+        m = self.add_node("bind")
+        self.act(f"observe n{m}")
+        self.obs.append({"node": m, "clones": 1, "dis": False})
+        self.act("stabilise")
+        k1 = len(self.vars)
+        self.vars.append({"node": None, "alive": False, "pair": False, "scoped": True})
+        def write(k):
+            op = rng.choice(["set", "set", "modify", "update", "replace", "replacewith"])
+            if op in ("set", "replace"):
+                self.act(f"{op} v{k} {rng.randint(0, 4)}")
+            else:
+                self.act(f"{op} v{k} {rng.randint(1, 3)}")
+        if rng.random() < 0.6:
+            self.act(f"observe @s{slot}")
+            self.obs.append({"node": None, "clones": 1, "dis": False})
+            if rng.random() < 0.5:
+                self.act(f"subscribe o{len(self.obs) - 1} h0")
+                self.tokens.append(len(self.obs) - 1)
+            self.act("stabilise")
+        if rng.random() < 0.5:
+            write(k1)
+            self.act("stabilise")
+        self.act(f"modify v{vo} 1")
+        if rng.random() < 0.3:
+            write(k1)            # written in the same round in which its scope dies
+        self.act("stabilise")
+        k2 = len(self.vars)
+        self.vars.append({"node": None, "alive": False, "pair": False, "scoped": True})
+        write(k1)
+        if rng.random() < 0.5:
+            self.act("stabilise")
+            write(k1)
+        write(k2)
+        self.act("stabilise")
+        if rng.random() < 0.4:
+            self.act(f"dropvar v{k1}")
+            self.act("stabilise")
+        self.act(f"get v{k2}")
+        self.vars[vo]["alive"] = False      # frozen: further re-runs would shift the ordinals of later variables
+        self.count("motif_scoped_var")
+
     def motif_expert_stale(self):
         """two expert nodes sharing one driver whose own value never changes and which only calls make_stale;
         one of them is unobserved while the driver runs and observed again later"""
@@ -642,7 +698,9 @@ class Gen:
             r = rng.random()
             if self.profile == "expert" and r < 0.5:
                 (self.motif_expert_stale if r < 0.25 else self.motif_expert_late_target)()
-            elif r < 0.1 and self.profile != "static":
+            elif r < 0.07 and self.profile in ("bind", "general", "varw"):
+                self.motif_scoped_var()
+            elif r < 0.12 and self.profile != "static":
                 self.motif_leak()
             elif r < 0.18 and self.profile != "static":
                 self.motif_two_binds()
